@@ -115,7 +115,7 @@ def run_hal(ctx, d, q):
     if rc != 0:
         raise vlib.Broken("hal scenario harness failed:\n" + out[-3000:])
     trt = os.path.join(ctx.work, "c16_hal_t.ndjson")
-    rc, out, _ = ctx.gotest("kernel", "hal", HAL_HARNESS, "TestVerifC16HalRandom", env={"NTRACES": 120 if q else 5000, "TRACE_OUT": trt},
+    rc, out, _ = ctx.gotest("kernel", "hal", HAL_HARNESS, "TestVerifC16HalRandom", env={"NTRACES": 120 if q else 10000, "TRACE_OUT": trt},
                             extra_files=HAL_SHIM, timeout=600)
     if rc != 0:
         raise vlib.Broken("hal random harness failed:\n" + out[-3000:])
